@@ -622,6 +622,8 @@ class Lib:
                 return {'kind': 'join', 'handles': v.get('handles')}
         if isinstance(v, Opaque) and v.tag == 'Fuse':
             inner = v.get('inner')
+            if isinstance(inner, Union):
+                inner = I.resolve_union(inner)
             if inner is None:
                 return {'kind': 'terminated', 'ref': ref}
             d = self.classify_future(inner, arm)
